@@ -7,6 +7,7 @@ A case is {'kind': 'ext', 'base': <W or terms case of c11_lib>, 'ops': {...}, 's
 Gaussian integers / dyadic rationals, so the float arithmetic of the implementation is exact and values are compared
 exactly; tolerances only where site matrices are irrational (spin 1, bosons)."""
 import json
+import subprocess
 import traceback
 import warnings
 from fractions import Fraction
@@ -88,6 +89,12 @@ def gen_case(rng, quick=True):
         ops['decide'] = dec
     if rng.random() < 0.5:
         ops['hermitian'] = {'max_range': rng.choice([None, None, 1, 2]) if not finite else None}
+    if has_B and rng.random() < 0.6:
+        # A + B with attributes on both operands (flag, max_range); rarely different flags (ValueError)
+        ops['add'] = {'max_range_B': _rand_range(rng, L), 'flag_mismatch': rng.random() < 0.08,
+                      'seed': rng.randrange(1 << 30), 'chi': [1] + [rng.randint(1, 2) for _ in range(L - 1)] + [1]}
+    if ops['plus_hc'] and rng.random() < 0.5:
+        ops['flag_rejects'] = True
     if ops.get('use_sum') and rng.random() < 0.7:
         ops['ui'] = {'dt': [oc.fr_str(Fraction(rng.randint(-2, 2), 4)), oc.fr_str(Fraction(rng.choice([-1, 1, 2]), 4))]}
     if W and rng.random() < 0.6:
@@ -111,7 +118,7 @@ def gen_cases(rng, n, quick=True):
 def case_hist(case):
     b, ops = case['base'], case['ops']
     h = ['ext_base=' + b['kind'], 'ext_finite=%s' % b['finite'], 'ext_L=%d' % b['L']]
-    for k in ('env', 'sort', 'group', 'enlarge', 'segment', 'decide', 'hermitian', 'termlist', 'use_sum', 'drop_marker', 'ui'):
+    for k in ('env', 'sort', 'group', 'enlarge', 'segment', 'decide', 'hermitian', 'termlist', 'use_sum', 'drop_marker', 'ui', 'add', 'flag_rejects'):
         if k in ops:
             h.append('ext_op=' + k)
     h.append('ext_max_range=%s' % ops.get('max_range'))
@@ -152,9 +159,14 @@ def build(case):
         A = cl.terms_to_mpo(base, base['tlA'])
         B = cl.terms_to_mpo(base, base['tlB'], 'B') if 'tlB' in base else None
     if ops.get('use_sum') and B is not None and cc.can_add(A, B):
-        A = A + B
+        # both operands carry the flag; the sum has to inherit it (it is NOT set again on the result)
+        A.explicit_plus_hc = bool(ops.get('plus_hc'))
+        B2 = B.copy()
+        B2.explicit_plus_hc = bool(ops.get('plus_hc'))
+        A = A + B2
+    else:
+        A.explicit_plus_hc = bool(ops.get('plus_hc'))
     A.max_range = _py_range(ops.get('max_range'))
-    A.explicit_plus_hc = bool(ops.get('plus_hc'))
     if ops.get('drop_marker') == 'IdL0':
         A.IdL[0] = None
     elif ops.get('drop_marker') == 'IdRL':
@@ -169,6 +181,14 @@ def build(case):
         B.max_range = _py_range(dec.get('max_range_B'))
         B.explicit_plus_hc = bool(dec.get('plus_hc_B'))
     return A, B
+
+
+def build_operands(case):
+    """the two stored operands of the case without any attribute set"""
+    base = case['base']
+    if base['kind'] == 'W':
+        return cl.W_to_mpo(base, base['WA']), cl.W_to_mpo(base, base['WB'], 'B')
+    return cl.terms_to_mpo(base, base['tlA']), cl.terms_to_mpo(base, base['tlB'], 'B')
 
 
 def _other_bc(H):
@@ -368,6 +388,31 @@ def real_side(case):
         R['ev'] = call(lambda: complex(A.expectation_value(psi)))
         R['variance'] = call(lambda: complex(A.variance(psi)))
         R['var_contr'] = call(lambda: complex(_variance_contr(A, psi)))
+    # copy / dagger: always (cheap); the flag and the denoted operator must survive
+    R['copy'] = call(lambda: A.copy())
+    R['dagger'] = call(lambda: A.dagger())
+    if 'add' in ops and B is not None:
+        ad = ops['add']
+        A0, B0 = build_operands(case)
+        A0.explicit_plus_hc = bool(ops.get('plus_hc'))
+        B0.explicit_plus_hc = bool(ops.get('plus_hc')) != bool(ad['flag_mismatch'])
+        A0.max_range = _py_range(ops.get('max_range'))
+        B0.max_range = _py_range(ad['max_range_B'])
+        R['add_operands'] = (A0, B0)
+        if A0.finite or (cc.markers_everywhere(A0) and cc.markers_everywhere(B0)):
+            req['add'] = {'A0': mpox_json(A0), 'B0': mpox_json(B0)}
+        R['add'] = call(lambda: A0 + B0)
+        R['add_rev'] = call(lambda: B0 + A0)
+    if ops.get('flag_rejects') and A.explicit_plus_hc:
+        psi0 = None
+        if finite and all(s_.leg.chinfo.qnumber == 0 for s_ in A.sites):
+            psi0 = make_mps(A.sites, {'seed': case['seed'], 'chi': [1] * (L + 1)}, 'ket')
+        R['flag_rejects'] = {
+            'plus_identity': call(lambda: A.plus_identity(1., 2.)) if finite else None,
+            'make_U_I': call(lambda: A.make_U_I(0.1)),
+            'make_U_II': call(lambda: A.make_U_II(0.1)),
+            'variance': call(lambda: A.variance(psi0)) if psi0 is not None else None,
+        }
     if 'sort' in ops:
         req['sort'] = {'q': bond_charges(A)}
 
@@ -570,6 +615,89 @@ def check(case, R, lo, use_model=True):
     dA = attempt('dense', lambda: dense(A, L)) if markers_ok else None
     if dA is not None and A.explicit_plus_hc:
         pass  # mpo_window_dense already adds the conjugate for a flagged MPO
+    # ---- the attributes through copy / dagger and through the in-place operations ------------------------------
+    tolA = TOL * max(1.0, float(np.max(np.abs(dA))) if (dA is not None and dA.size) else 1.0)
+    for name in ('copy', 'dagger'):
+        X = R.get(name)
+        if isinstance(X, Raised):
+            prop(f'{name}.error.{X.name}', repr(X))
+            continue
+        if X.explicit_plus_hc != A.explicit_plus_hc or X.bc != A.bc or X.max_range != A.max_range:
+            prop(f'{name}.attributes-changed', f'explicit_plus_hc {A.explicit_plus_hc} -> {X.explicit_plus_hc}, bc {A.bc} -> '
+                 f'{X.bc}, max_range {A.max_range} -> {X.max_range}')
+        elif dA is not None and X.IdL[0] is not None and X.IdR[-1] is not None:
+            dX = attempt(name, lambda: dense(X, L))
+            want = dA if name == 'copy' else dA.conj().T
+            if dX is not None and oc.maxdiff(dX, want) > tolA:
+                prop(f'{name}.dense-mismatch', f'{name}() stands for another operator (flag {A.explicit_plus_hc}): differs by '
+                     f'{oc.maxdiff(dX, want):.2e}')
+    for name in ('sort', 'group', 'enlarge', 'segment'):
+        X = R.get(name)
+        if X is not None and not isinstance(X, Raised) and X.explicit_plus_hc != A.explicit_plus_hc:
+            prop(f'{name}.explicit_plus_hc-changed', f'{A.explicit_plus_hc} -> {X.explicit_plus_hc}')
+    if 'flag_rejects' in R:
+        facts['flag_rejects'] = True
+        for name, X in R['flag_rejects'].items():
+            if X is not None and not (isinstance(X, Raised) and X.name == 'NotImplementedError'):
+                prop(f'{name}.explicit_plus_hc-accepted', f'{name} of a flagged MPO: {X!r}')
+    # ---- A + B with attributes ------------------------------------------------------------------------------------
+    if 'add' in R:
+        A0, B0 = R['add_operands']
+        ad = ops['add']
+        facts['add_attr'] = True
+        facts['add_flagged'] = bool(A0.explicit_plus_hc and B0.explicit_plus_hc)
+        mism = A0.explicit_plus_hc != B0.explicit_plus_hc
+        sumform = cc.can_add(A0, B0)
+        for key, X, (P, Q) in (('add', R['add'], (A0, B0)), ('add_rev', R['add_rev'], (B0, A0))):
+            if mism:
+                if not (isinstance(X, Raised) and X.name == 'ValueError'):
+                    prop('add.different-flags-accepted', f'{key}: {X!r}')
+                continue
+            if not sumform:
+                continue
+            if isinstance(X, Raised):
+                prop(f'add.error.{X.name}', f'{key}: {X!r}')
+                continue
+            if X.explicit_plus_hc != P.explicit_plus_hc:
+                prop('add.explicit_plus_hc-lost', f'{key}: operands flagged {P.explicit_plus_hc}, sum flagged {X.explicit_plus_hc}')
+            known_r = P.max_range is not None and Q.max_range is not None
+            want_r = max(P.max_range, Q.max_range) if known_r else None
+            if X.max_range != want_r:
+                prop('add.max_range-wrong', f'{key}: {P.max_range}, {Q.max_range} -> {X.max_range}')
+            nwin = L if finite else 2 * L
+            if float(np.prod(dims)) ** (nwin / L) <= 1300:
+                dP, dQ, dX = (attempt('dense', lambda H=H: dense(H, nwin)) for H in (P, Q, X))
+                if dP is not None and dQ is not None and dX is not None:
+                    dd = oc.maxdiff(dX, dP + dQ)
+                    if dd > TOL * max(1.0, float(np.max(np.abs(dP + dQ))) if dP.size else 1.0):
+                        prop('add.flagged-dense-mismatch' if P.explicit_plus_hc else 'add.dense-mismatch',
+                             f'{key}: the sum (flag {X.explicit_plus_hc}) stands for an operator that differs from the sum of '
+                             f'the operators of the operands (flags {P.explicit_plus_hc}, {Q.explicit_plus_hc}) by {dd:.2e}')
+        X = R['add']
+        if not mism and sumform and not isinstance(X, Raised) and finite and all(s_.leg.chinfo.qnumber == 0 for s_ in A0.sites):
+            # <psi|A + B|psi> = <psi|A|psi> + <psi|B|psi>
+            psi = make_mps(A0.sites, {'seed': ad['seed'], 'chi': ad['chi'], 'cplx': True}, 'ket')
+            ev = [call(lambda H=H: complex(H.expectation_value(psi))) for H in (X, A0, B0)]
+            if not any(isinstance(e, Raised) for e in ev):
+                facts['add_expectation'] = True
+                if not _near(ev[0], ev[1] + ev[2], abs(ev[1]) + abs(ev[2]) + 1.0):
+                    prop('add.expectation-not-additive', f'<psi|A+B|psi> = {ev[0]!r}, <A> + <B> = {ev[1] + ev[2]!r} '
+                         f'(flags {A0.explicit_plus_hc}, {B0.explicit_plus_hc} -> {X.explicit_plus_hc})')
+        if model and 'add' in lo:
+            ma = lo['add']
+            if isinstance(X, Raised):
+                if ma is not None and (mism or sumform):
+                    corr('add.raises', f'implementation raised {X!r}, model returns an MPO')
+            elif ma is None:
+                corr('add.rejects', 'model rejects, implementation returns an MPO')
+            elif sumform:
+                if cmp_mpo('add_attr', X, ma['mpo']):
+                    if bool(X.explicit_plus_hc) != ma['plusHc'] or bool(X.finite) != ma['finite'] \
+                            or range_json(X.max_range) != ma['maxRange']:
+                        corr('add.attributes', f'impl flag {X.explicit_plus_hc} finite {X.finite} max_range {X.max_range}; model {ma["plusHc"]} '
+                             f'{ma["finite"]} {ma["maxRange"]}')
+                    if not ma['full_ok']:
+                        corr('add.full_ok', 'model: full(A + B) != full(A) + full(B)')
     # ---- environments ---------------------------------------------------------------------------
     if 'env' in ops:
         psi, phi = R['psi'], R['phi']
@@ -938,9 +1066,14 @@ def work(cases, use_model=True):
     louts = [None] * len(reals)
     if use_model and reqs:
         try:
-            louts = core.run_driver('C11', reqs, timeout=900)
+            louts = core.run_driver('C11', reqs, timeout=300)
         except core.DriverError as e:
             louts = [{'error': 'driver: ' + str(e)[:400]}] * len(reals)
+        except subprocess.TimeoutExpired:
+            # infrastructure (e.g. `lake env` blocked by a build lock): skipped and counted, not a verdict
+            for n in idx:
+                out[n]['skipped'] = 'infra:driver-timeout'
+            return out
     for n, R, lo in zip(idx, reals, louts):
         rec = out[n]
         try:
